@@ -8,6 +8,8 @@ import Aiortc.Lemmas.C17.TransmitShift
 import Aiortc.Lemmas.C17.ReceiveSackShift
 import Aiortc.Lemmas.C17.NackShift
 import Aiortc.Lemmas.C17.SenderShift
+import Aiortc.Lemmas.C17.SenderRun
+import Aiortc.Lemmas.C17.TsMapShift
 import Aiortc.Lemmas.C17.JitterAdd
 import Aiortc.Lemmas.C17.TxRun
 import Aiortc.Lemmas.C17.Witness
@@ -270,6 +272,61 @@ theorem handleNack_shift_plain (k r m : Int) (cfg : SenderCfg) (hc : cfg.rtxPt =
       = (shiftSender k r m (handleNack cfg s xs).1, (handleNack cfg s xs).2.map (shiftPkt k m)) :=
   Aiortc.C17.handleNack_shift_plain k r m cfg hc xs s hx hh
 
+/-! ### Whole histories of the RTP sender (`Lemmas/C17/SenderRun.lean`)
+
+A history is a list of `SOp`s (an encoded frame through the `_run_rtp` loop / an RTCP NACK through
+`_handle_rtcp_packet`); `sRun` runs it on the model functions `sendFrame` / `handleNack` (what the `video sender`
+driver request executes, tied to the real `RTCRtpSender` by the `sender-origin` component from origins at the wrap);
+`evRun` is the same history as events (`SEv.sent p` / `SEv.resent rtxSeq p`), `render` = `rtxOut` makes wire
+packets of them. -/
+
+/-- The wire output of a history is the rendering of its events. -/
+theorem rtp_sender_wire_is_rendering (cfg : SenderCfg) (ops : List SOp) (s : Sender) :
+    sRun cfg s ops = (evRun cfg s ops).map (List.map (render cfg)) := sRun_render cfg ops s
+
+/-- **Whole histories of the RTP sender**: sequence-number origin moved by `k`, RTX sequence-number origin by
+`r`, timestamp origin by `m`, the NACKed numbers moved by `k`: the same events in the same order — the same
+packets are (re)sent with their sequence number moved by `k` and timestamp by `m`, every retransmission uses the
+RTX sequence number moved by `r`, and a NACK that is ignored stays ignored. -/
+theorem rtp_sender_origin_independent (k r m : Int) (cfg : SenderCfg) (ops : List SOp) (s : Sender)
+    (hops : ∀ op ∈ ops, OpOk op) (h : SOk s) :
+    evRun (shiftCfg m cfg) (shiftSender k r m s) (ops.map (shiftOp k))
+      = (evRun cfg s ops).map (List.map (shiftSEv k r m)) := evRun_shift k r m cfg ops s hops h
+
+/-- From a sender that has not sent anything, for ANY two triples of origins (the run from `(seq, rtxSeq, ts)` and
+the run from the origins moved by `k`, `r`, `m`). -/
+theorem rtp_sender_origin_independent_fresh (k r m : Int) (cfg : SenderCfg) (ops : List SOp) (seq rtxSeq : Int)
+    (hops : ∀ op ∈ ops, OpOk op) (hseq : R16 seq) :
+    evRun (shiftCfg m cfg) ⟨σ16 k seq, σ16 r rtxSeq, []⟩ (ops.map (shiftOp k))
+      = (evRun cfg ⟨seq, rtxSeq, []⟩ ops).map (List.map (shiftSEv k r m)) :=
+  evRun_shift k r m cfg ops ⟨seq, rtxSeq, []⟩ hops (fresh_ok seq rtxSeq hseq)
+
+/-- The retransmission decisions — how many packets answer each operation on the wire — are the same. -/
+theorem rtp_sender_decisions_origin_independent (k r m : Int) (cfg : SenderCfg) (ops : List SOp) (s : Sender)
+    (hops : ∀ op ∈ ops, OpOk op) (h : SOk s) :
+    (sRun (shiftCfg m cfg) (shiftSender k r m s) (ops.map (shiftOp k))).map List.length
+      = (sRun cfg s ops).map List.length := sRun_lengths_shift k r m cfg ops s hops h
+
+/-- Without RTX the wire packets themselves are the shifted packets. -/
+theorem rtp_sender_origin_independent_plain (k r m : Int) (cfg : SenderCfg) (hc : cfg.rtxPt = none)
+    (ops : List SOp) (s : Sender) (hops : ∀ op ∈ ops, OpOk op) (h : SOk s) :
+    sRun (shiftCfg m cfg) (shiftSender k r m s) (ops.map (shiftOp k))
+      = (sRun cfg s ops).map (List.map (shiftPkt k m)) := sRun_shift_plain k r m cfg hc ops s hops h
+
+/-! ### TimestampMapper (`Lemmas/C17/TsMapShift.lean`): `_last_timestamp` moves by `m`, `_origin - _last_timestamp`
+stays; the two runs may wrap at different calls, the values returned are the same -/
+
+theorem tsmap_shift (m : Int) (s : TsMap) (t : Int) (ht : R32 t) (hs : TsMapOk s) :
+    TsMap.map (shiftTs m s) (σ32 m t) = omap (fun r => (shiftTs m r.1, r.2)) (TsMap.map s t) :=
+  tsMap_shift m s t ht hs
+
+/-- A fresh `TimestampMapper` returns the same values for ANY sequence of 32-bit timestamps (monotone or not)
+and the sequence with every timestamp moved by `m`. -/
+theorem tsmap_origin_independent (m : Int) (ts : List Int) (hts : ∀ t ∈ ts, R32 t) :
+    tsMapAll TsMap.init (ts.map (σ32 m)) = tsMapAll TsMap.init ts := by
+  have h := tsMapAll_shift m ts TsMap.init hts tsInit_ok
+  rwa [tsInit_shift] at h
+
 /-! ### JitterBuffer: the packet array is rotated by `k mod capacity` (`shiftJB`), timestamps move by `m` -/
 
 /-- `x % capacity` of a shifted sequence number is the rotated slot (capacity divides 2^16). -/
@@ -412,5 +469,29 @@ example : omap (fun r => r.2) ((Jitter.mk 16 0 true).bind fun jb => Jitter.run j
 example : omap (fun r => r.2) ((Jitter.mk 16 0 true).bind fun jb => Jitter.run jb (psWrap.map (shiftP 10 2000)))
     = .ok [(false, none), (false, none), (false, some ⟨[1, 2], 1000⟩), (false, none),
            (false, some ⟨[3, 4], 3000⟩)] := by decide
+
+-- RTP sender history across the wrap (RTX negotiated): a frame of three packets from 65535, a NACK for 65535, 0
+-- and a number never sent, 127 more packets, then the packets 127 / 128 / 129 positions back are NACKed: the one
+-- 127 back (sequence number 1) is still in the history, 0 and 65535 — sent before / at the wrap — are not
+example : SOk sWrap ∧ (∀ op ∈ opsWrap, OpOk op) := by
+  refine ⟨fresh_ok 65535 65535 (by unfold R16; decide), ?_⟩
+  intro op hop
+  simp only [opsWrap, List.mem_cons, List.not_mem_nil, or_false] at hop
+  rcases hop with h | h | h | h | h | h <;> subst h <;> (try trivial) <;>
+    (intro x hx; simp at hx; (try rcases hx with h | h | h) <;> subst_vars <;> (unfold R16; decide))
+set_option maxRecDepth 100000 in
+example : (sRun cfgRtx sWrap opsWrap).map (List.map fun p => (p.payloadType, p.sequenceNumber, p.payload.take 2))
+    = [[(96, 65535, [1]), (96, 0, [2]), (96, 1, [3])],
+       [(97, 65535, [255, 255]), (97, 0, [0, 0])],
+       (List.range 127).map (fun i => (96, i + 2, [7])),
+       [(97, 1, [0, 1])], [], []] := by decide
+-- the same history from origin 100 / RTX origin 7 (k = 101, r = 8): the same decisions
+set_option maxRecDepth 100000 in
+example : (sRun cfgRtx (shiftSender 101 8 0 sWrap) (opsWrap.map (shiftOp 101))).map List.length = [3, 2, 127, 1, 0, 0] := by
+  decide
+-- TimestampMapper: 2^32-3000, 0, 3000 (wraps at the second call) and the same offsets from 5 (never wraps)
+example : tsMapAll TsMap.init [4294964296, 0, 3000] = .ok [0, 3000, 6000]
+    ∧ tsMapAll TsMap.init ([4294964296, 0, 3000].map (σ32 3005)) = .ok [0, 3000, 6000]
+    ∧ [4294964296, 0, 3000].map (σ32 3005) = [5, 3005, 6005] := by decide
 
 end Aiortc.Props.C17Shift
